@@ -43,6 +43,9 @@ REF_SI = {'J/mol/K': F(1), 'kJ/mol/K': F(1000), 'L kPa/mol/K': F(1), 'cm3 kPa/mo
           'Ha/K': F(2721138602, 100000000) * F(9648533289, 100000)}
 SEEDS_GAS = ['C', 'CC', 'CCC', 'CC(C)C', 'CCCC', 'CC(C)(C)C', 'CO', 'CCO', 'OCCO', 'CC(O)C', 'COC', 'CC=O', 'CC(=O)C', 'CC(=O)O', 'C=C',
              'CC=C', 'C=CC=C', 'C#C', 'c1ccccc1', 'Cc1ccccc1', 'C1CCCCC1', 'C1CC1', 'OC=O', 'O', 'C=O', 'OCC(O)CO', 'CC(C)=O', 'CN', 'CCN', 'OO']
+# hydrogens written inside bracket atoms (radicals, explicit-H spellings): they are atoms of the molecule like any other
+BRACKET_H_GAS = ['C[CH2]', '[CH3]', 'C[CH]C', '[CH3][CH3]', '[CH2]1[CH2][CH2]1', 'C[OH]', '[CH2]=[CH2]', 'CC[CH2]', '[CH4]']
+BRACKET_H_SURF = ['[Pt][CH2][Pt]', '[CH3][Pt]', 'O[CH2][Pt]', '[Pt][CH]([Pt])C', '[CH3][CH2][Pt]']
 SEEDS_SURF = ['C[Pt]', 'C([Pt])([Pt])', 'C([Pt])([Pt])[Pt]', 'CC[Pt]', 'CC([Pt])[Pt]', 'C([Pt])C[Pt]', 'OC[Pt]', 'O[Pt]', 'OCC[Pt]', 'O=C[Pt]',
               'CC(=O)[Pt]', 'OC(C)[Pt]', 'C(O)(O)[Pt]', 'OCC(O)[Pt]', '[Pt]OC', 'CC(O[Pt])', 'C([Pt])(O)C(O)[Pt]', 'O=CC[Pt]', 'C(=O)([Pt])O',
               '[Pt]C(=O)C[Pt]', 'OC(=O)[Pt]', 'C(C)(C)[Pt]', 'CCC[Pt]', 'CC([Pt])C', '[Pt]CC(O)C[Pt]', 'C([Pt])([Pt])O[Pt]', '[Ru]C']
@@ -222,6 +225,42 @@ def elemental_sum(smiles):
     return ('ok', tot)
 
 
+def deferred_elemental(ctx):
+    """Estimates made right after decomposing their molecules, but evaluated only after further molecules were decomposed with
+    the same library: each estimate's elemental offset is still that of ITS molecule (the estimate was made for it)."""
+    rng = ctx.rng
+    for name in L.shipped_names():
+        info = L.shipped(name)
+        surface = name not in ('BensonGA', 'PPY')
+        made = []
+        for smi in rng.sample(SEEDS_SURF if surface else SEEDS_GAS, 6):
+            try:
+                with L.quiet():
+                    desc = info.lib.GetDescriptors(smi)
+                    est = info.lib.Estimate(desc, 'thermochem')
+                made.append((smi, est))
+            except Exception:
+                continue
+        for smi, est in made:
+            sel = elemental_sum(smi)
+            if sel[0] != 'ok':
+                continue
+            try:
+                with L.quiet():
+                    r = est.get_range()
+                    T = 298.15 if r is None else min(max(298.15, float(r[0])), float(r[1]))
+                    a, b = float(est.get_SoR(T)), float(est.get_SoR(T, S_elements=True))
+            except Exception:
+                ctx.count('deferred_eval_error')
+                continue
+            ctx.case(('deferred', name, smi), None)
+            ctx.count('deferred_elemental')
+            if not rel_close(a - b, sel[1], scale=abs(a) + sel[1]):
+                ctx.violation("an estimate's elemental offset is not that of the molecule it was made for once other molecules "
+                              'have been decomposed with the same library', {'library': name, 'smiles': smi,
+                              'decomposed_before_evaluation': [m for m, _ in made]}, sel[1], a - b)
+
+
 # ---------------------------------------------------------------------- generators
 def pick_pairs(rng, units, flags, keys, stripped):
     """all units with flags None/True; all flags with two units"""
@@ -243,6 +282,9 @@ def estimate_cases(ctx, batch, keys, stripped, rej):
         pool = list(SEEDS_GAS) + (list(SEEDS_SURF) if surface else [])
         pool += [random_smiles(rng, surface) for _ in range(ctx.n(30, 200))]
         rng.shuffle(pool)
+        br = list(BRACKET_H_SURF if surface else BRACKET_H_GAS)
+        rng.shuffle(br)
+        pool = br[:4] + pool          # a few bracket-hydrogen spellings always come first
         done = 0
         want = ctx.n(10, 50)
         units = keys + stripped + rng.sample(rej, min(4, len(rej)))
@@ -344,6 +386,7 @@ def run(ctx):
     estimate_cases(ctx, batch, keys, stripped, rej)
     t1 = time.time()
     correlation_cases(ctx, batch, keys, stripped, rej)
+    deferred_elemental(ctx)
     t2 = time.time()
     ctx.extra.setdefault('coverage', {})['phase_seconds'] = {'estimates': round(t1 - t0, 1), 'group_correlations': round(t2 - t1, 1)}
     reqs = [dict(x.request, op='c07.estimate') if kind == 'est' else x[7] for kind, x in batch]
